@@ -211,12 +211,28 @@ def classify(ln, out):
 
 RULE = ('responses produced by a scripted handler on a live Http::Endpoint (127.0.0.1), read by a raw socket: every status code; 0..5 typed headers and 0..3 cookies from pools; '
         'fixed bodies of 0..20000 bytes (every buffer doubling boundary, arbitrary octets, bodies that look like chunk terminators) with maximum response size far above, at total-1, total, total+1; '
-        'streamed responses of 0..5 chunks (sizes incl. every change of the number of hex digits of the chunk-size line up to 0x100001) via write()/operator<<(const char*)/operator<<(int), zero-length writes, any flush pattern, the ResponseStream moved by the handler before some writes and/or before ends(), batches around the cap; HTTP/1.0 and 1.1 requests. '
+        'streamed responses of 0..5 chunks (sizes incl. every change of the number of hex digits of the chunk-size line up to 0x100001) via write()/operator<<(const char*)/operator<<(int), zero-length writes, any flush pattern, the ResponseStream moved by the handler before some writes and/or before ends(), batches around the cap; HTTP/1.0 and 1.1 requests; fixed responses of 1..8 MB written through a 32 KB socket send buffer to a reader that pauses between bursts (the one queued buffer resumes after would-block many times): Content-Length and every body byte checked. '
         'The received bytes are checked by an independent RFC 7230 grammar and compared with the model\'s serialiser (header lines as sorted lists). non-trivial = distinct (mode, code, #headers, #cookies, size class, write kinds, outcome)')
 ASSUME = ['the handler does not set framing headers (Content-Length, Transfer-Encoding) itself', 'header/cookie values from the pools are in canonical written form',
           'header lines leave an unordered container: compared as sorted lists', 'one request per connection; loopback TCP delivers in order']
 
+def oracle_slow(ln, out):
+    if any(x in out for x in BAD): return ('crash', 'implementation aborted/hung: ' + out[:120])
+    n = int(ln.split()[1]) * 1024
+    f = dict(kv.split('=', 1) for kv in out.split(' ') if '=' in kv)
+    if f.get('status') != '200' or f.get('cl') != str(n): return ('framing', 'a %d-byte fixed response read slowly: status %s, Content-Length %s' % (n, f.get('status'), f.get('cl')))
+    if f.get('recv') != str(n) or f.get('match') != '1':
+        return ('framing', 'a %d-byte fixed response read slowly: Content-Length says %s, the peer received %s body bytes, first wrong byte at %s' % (n, f.get('cl'), f.get('recv'), f.get('match')))
+    return None
+
+def extra(res, lean, drv, tier, rnd):
+    """large fixed responses through a small send buffer to a reader that pauses: the buffer resumes after would-block many times"""
+    lines = ['respslow %d' % kb for kb in ([2048, 3000] if tier == 'quick' else [2048, 3000, 1024, 4096, 6000, 8192])]
+    core.kdiff(res, lean, drv, lines, oracle=oracle_slow, classify=lambda l, o: ('respslow', l.split()[1], o), tag='slow:', retry=2)
+
 def run(tier):
-    return core.standard_run(PROP, tier, MODULES, THEOREMS, gen, oracle, classify, RULE, ASSUME, driver=('drv_live', drivers.LIVE_SOURCES), retry=2)
+    return core.standard_run(PROP, tier, MODULES, THEOREMS, gen, oracle, classify, RULE, ASSUME, driver=('drv_live', drivers.LIVE_SOURCES), retry=2, extra=extra)
 def replay(path):
-    return core.standard_replay(PROP, path, oracle, driver=('drv_live', drivers.LIVE_SOURCES))
+    import json
+    case = json.load(open(path)).get('case') or ''
+    return core.standard_replay(PROP, path, oracle_slow if case.startswith('respslow') else oracle, driver=('drv_live', drivers.LIVE_SOURCES))
